@@ -70,6 +70,7 @@ Step(t, e) ==
     [] e.ev = "wire" -> [t0 EXCEPT !.wires = @ \cup {[net |-> e.net, i |-> e.i]}]
     [] e.ev = "end" -> Judge(t0)
     [] e.ev = "panic" -> Viol(t0, "panic: " \o e.msg \o " at " \o e.loc)
+    [] e.ev = "hang" -> Viol(t0, "the scenario never ended: the code under test kept producing events without bound or stopped making progress (" \o e.why \o ")")
     [] OTHER -> t0
 Init == l = 1 /\ s = Init0
 Next == l <= Len(Rec) /\ s' = Step(s, Rec[l]) /\ l' = l + 1
